@@ -514,6 +514,9 @@ func (g *gen) wire() enc.Wire {
 	return w
 }
 
+// time zones the validity period of a signer may be expressed in (the wire carries the instant in UTC)
+var zones = []*time.Location{time.UTC, time.FixedZone("p9", 9*3600), time.FixedZone("m7", -7*3600), time.FixedZone("p0545", 5*3600+45*60)}
+
 var natBoundaries = []uint64{0, 1, 2, 3, 255, 256, 65535, 65536, 1<<32 - 1, 1 << 32, 1<<63 - 1, 1 << 63, 1<<64 - 1}
 var msBoundaries = []int64{0, 1, 255, 256, 4000, 65535, 65536, 1<<32 - 1, 1 << 32, 9223372036854}
 
@@ -567,7 +570,7 @@ func (g *gen) customSigner(forInterest bool) *signerKind {
 		}
 	}
 	if g.r.Intn(12) == 0 {
-		t := time.Unix(int64(g.r.Intn(1<<31)), 0)
+		t := time.Unix(int64(g.r.Intn(1<<31)), 0).In(zones[g.r.Intn(len(zones))])
 		c.cfg.NotBefore = &t
 		if g.r.Intn(4) != 0 {
 			t2 := t.Add(time.Hour)
@@ -1716,6 +1719,7 @@ func TestTrace(t *testing.T) {
 		g.big = i%97 == 13
 		g.bigLeft = 1
 		tr.line("# case %d", i)
+		time.Local = zones[(i/2)%len(zones)] // the shipped signers call time.Now(): the process zone must not matter
 		if i%2 == 0 {
 			tr.dataCase(g, i)
 		} else {
@@ -1727,6 +1731,10 @@ func TestTrace(t *testing.T) {
 		}
 		if i%30 == 5 {
 			tr.boundaryCases(g, i/30)
+		}
+		if i%40 == 23 {
+			tr.line("# case %d engine receive path", i)
+			tr.engineCase(g, i/40)
 		}
 		if i%20 == 9 {
 			tr.line("# case %d decode sequence", i)
